@@ -101,15 +101,16 @@ let () =
                       c_u_ralen = Z0; c_u_rastride = zi "u" 0; c_u_cflen = Z0; c_u_cfstride = zi "u" 0; c_u_cfoff = Z0 } in
             let r = colvar_init rof c in
             let ok = List.for_all (fun s -> all_ok (colvar_step_uses r.r_state (z_of_int s) (z_of_int s))) steps in
-            let corr_ok = List.for_all (fun h -> all_ok (corrfunc_uses harness_bytes r.r_state (z_of_int h))) steps in
+            let corr_ok = List.for_all (fun h -> all_ok (corrfunc_uses r.r_state (z_of_int h))) steps in
             Printf.printf "%s initsafe=%d stepsafe=%d corrsafe=%d\n" (verdict r.r_err) (if all_ok r.r_uses then 1 else 0)
               (if ok then 1 else 0) (if corr_ok then 1 else 0)
           | "bias" ->
             let r = bias_init rof (base ()) in
             out r.r_err r.r_uses (List.for_all (fun s -> all_ok (bias_step_uses r.r_state (z_of_int s))) steps)
           | "meta" ->
-            let r = meta_init rof { m_base = base (); m_newhill = tk "newhill"; m_usegrids = (get "usegrids" <> "off"); m_gridsfreq = tk "gridsfreq" } in
-            out r.r_err r.r_uses (List.for_all (fun s -> all_ok (meta_step_uses r.r_state (z_of_int s))) steps)
+            let r = meta_init rof { m_base = base (); m_newhill = tk "newhill"; m_usegrids = (get "usegrids" <> "off"); m_gridsfreq = tk "gridsfreq";
+                                  m_replicas = on "replicas"; m_upfreq = tk "upfreq" } in
+            out r.r_err r.r_uses (r.r_err || List.for_all (fun s -> all_ok (meta_step_uses r.r_state (z_of_int s))) steps)
           | "abf" ->
             let r = abf_init rof { a_base = base (); a_full = tk "full"; a_min = tk "min"; a_hist = tk "hist"; a_u_min = Z0 } in
             out r.r_err r.r_uses (List.for_all (fun s -> all_ok (abf_step_uses r.r_state (z_of_int s))) steps)
@@ -121,7 +122,8 @@ let () =
             out r.r_err r.r_uses (all_ok (coordnum_step_uses r.r_state))
           | "opes" ->
             let r = opes_init rof (zi "tf" 1) { o_base = base (); o_pace = tk "pace"; o_adaptive = on "adaptive"; o_adstride = tk "adstride";
-                                               o_pmf = on "pmf"; o_pmfhist = tk "pmfhist"; o_trajfreq = tk "trajfreq"; o_u_adstride = Z0 } in
+                                               o_pmf = on "pmf"; o_pmfhist = tk "pmfhist"; o_trajfreq = tk "trajfreq"; o_u_adstride = Z0;
+                                               o_replicas = on "replicas"; o_nlist = on "nlist"; o_shared = tk "shared"; o_u_shared = Z0 } in
             let rof2 = zi "rof2" 0 in
             out r.r_err r.r_uses (r.r_err || List.for_all (fun s -> all_ok (opes_step_uses r.r_state rof2 (z_of_int s))) steps)
           | "opesmod" ->
@@ -131,7 +133,8 @@ let () =
             else begin
               let rf = m.r_state.restart_freq in
               let r = opes_init rf (zi "tf" 1) { o_base = base (); o_pace = tk "pace"; o_adaptive = on "adaptive"; o_adstride = tk "adstride";
-                                                 o_pmf = on "pmf"; o_pmfhist = tk "pmfhist"; o_trajfreq = tk "trajfreq"; o_u_adstride = Z0 } in
+                                                 o_pmf = on "pmf"; o_pmfhist = tk "pmfhist"; o_trajfreq = tk "trajfreq"; o_u_adstride = Z0;
+                                               o_replicas = on "replicas"; o_nlist = on "nlist"; o_shared = tk "shared"; o_u_shared = Z0 } in
               out r.r_err r.r_uses (r.r_err || List.for_all (fun s -> all_ok (opes_step_uses r.r_state rf (z_of_int s))
                                                                 && all_ok (module_step_uses m.r_state true (s = 0) (z_of_int s) (z_of_int s))) steps)
             end
@@ -146,6 +149,9 @@ let () =
                  Printf.printf "%s nt=%s\n" (match v with Accept -> "accept" | Reject -> "reject") (string_of_z nt)
                end
              | _ -> print_endline "reject parse")
+          | "scripted" ->
+            let r = scripted_init harness_bytes (tk "size") in
+            Printf.printf "%s initsafe=%d stepsafe=1 n=%s\n" (verdict r.r_err) (if all_ok r.r_uses then 1 else 0) (string_of_z r.r_state)
           | "histrestr" ->
             let r = histrestr_init harness_bytes { h_lower = tk "lower"; h_upper = tk "upper"; h_width = tk "width" } in
             Printf.printf "%s initsafe=%d stepsafe=1 nbins=%s\n" (verdict r.r_err) (if all_ok r.r_uses then 1 else 0) (string_of_z r.r_state)
